@@ -31,7 +31,8 @@ from sa import engine                      # noqa: E402
 from sa.core import Repo                   # noqa: E402
 
 MIRROR = {ast.Lt: ast.Gt, ast.Gt: ast.Lt, ast.LtE: ast.GtE, ast.GtE: ast.LtE}
-OPS = ('swap-eq', 'mirror-cmp', 'aug-expand', 'not-eq', 'if-flip', 'pass-insert', 'slice0', 'range0', 'extract-temp')
+OPS = ('swap-eq', 'mirror-cmp', 'aug-expand', 'not-eq', 'if-flip', 'pass-insert', 'slice0', 'range0', 'extract-temp',
+       'stderr-print', 'unused-assign', 'else-unnest', 'else-nest', 'len-truth', 'swap-adjacent')
 
 
 def find_fn(tree, lname):
@@ -73,12 +74,70 @@ def sites(fn, op):
         elif op == 'range0' and isinstance(n, ast.Call) and isinstance(n.func, ast.Name) and n.func.id == 'range' and (
                 len(n.args) == 1 or (len(n.args) == 2 and isinstance(n.args[0], ast.Constant) and n.args[0].value == 0)):
             out.append(i)
+        elif op in ('stderr-print', 'unused-assign') and isinstance(n, ast.stmt) and n is not fn and not isinstance(n, (ast.FunctionDef, ast.ClassDef)) \
+                and not (isinstance(n, ast.Expr) and isinstance(n.value, ast.Constant)):
+            out.append(i)
+        elif op == 'else-unnest' and isinstance(n, ast.If) and n.orelse and n.body and isinstance(n.body[-1], (ast.Return, ast.Continue, ast.Break, ast.Raise)):
+            out.append(i)
+        elif op == 'else-nest' and isinstance(n, ast.If) and not n.orelse and n.body and isinstance(n.body[-1], (ast.Return, ast.Continue, ast.Break, ast.Raise)) \
+                and _followers(fn, n):
+            out.append(i)
+        elif op == 'len-truth' and isinstance(n, (ast.If, ast.While)) and _len_test(n.test) is not None:
+            out.append(i)
+        elif op == 'swap-adjacent' and isinstance(n, ast.Assign) and _swappable(fn, n):
+            out.append(i)
         elif op == 'extract-temp' and isinstance(n, (ast.Assign, ast.AugAssign, ast.Return, ast.Expr, ast.If)):
             # a call / subscript / attribute-chain sub-expression of a simple statement (or of an if test)
             host = n.test if isinstance(n, ast.If) else n.value
             if host is not None and _extractable(host) is not None:
                 out.append(i)
     return out
+
+
+def _block_of(fn, st):
+    for p in ast.walk(fn):
+        for field in ('body', 'orelse', 'finalbody'):
+            lst = getattr(p, field, None)
+            if isinstance(lst, list) and any(x is st for x in lst):
+                return lst, [j for j, x in enumerate(lst) if x is st][0]
+    return None, None
+
+
+def _followers(fn, st):
+    lst, k = _block_of(fn, st)
+    return lst is not None and k + 1 < len(lst)
+
+
+def _len_test(t):
+    """len(X) == 0 / len(X) != 0 / len(X) > 0 at the top of a test -> ('empty'|'nonempty', X)"""
+    if isinstance(t, ast.Compare) and len(t.ops) == 1 and isinstance(t.left, ast.Call) and isinstance(t.left.func, ast.Name) \
+            and t.left.func.id == 'len' and len(t.left.args) == 1 and isinstance(t.comparators[0], ast.Constant) and t.comparators[0].value == 0:
+        if isinstance(t.ops[0], ast.Eq):
+            return 'empty', t.left.args[0]
+        if isinstance(t.ops[0], (ast.NotEq, ast.Gt)):
+            return 'nonempty', t.left.args[0]
+    return None
+
+
+def _names(node, ctxs):
+    return {x.id for x in ast.walk(node) if isinstance(x, ast.Name) and isinstance(x.ctx, ctxs)}
+
+
+def _swappable(fn, st):
+    lst, k = _block_of(fn, st)
+    if lst is None or k + 1 >= len(lst):
+        return False
+    nxt = lst[k + 1]
+    if not isinstance(nxt, ast.Assign):
+        return False
+    for a in (st, nxt):
+        if any(isinstance(x, (ast.Call, ast.Subscript, ast.Attribute)) for t in a.targets for x in ast.walk(t)):
+            return False
+        if any(isinstance(x, ast.Call) for x in ast.walk(a.value)):
+            return False
+    w1, w2 = _names(st, ast.Store), _names(nxt, ast.Store)
+    r1, r2 = _names(st, ast.Load), _names(nxt, ast.Load)
+    return not (w1 & (r2 | w2)) and not (w2 & r1)
 
 
 def _extractable(host):
@@ -135,6 +194,34 @@ def apply(fn, op, idx):
         elif op == 'if-flip':
             n.test = ast.UnaryOp(op=ast.Not(), operand=n.test)
             n.body, n.orelse = n.orelse, n.body
+        elif op in ('stderr-print', 'unused-assign'):
+            lst, k = _block_of(fn, n)
+            if lst is None:
+                return False
+            if op == 'stderr-print':
+                new = ast.parse("print('debug: reached', file=sys.stderr)").body[0]
+            else:
+                new = ast.parse("unused_dbg_x9 = 0").body[0]
+            lst.insert(k, ast.copy_location(new, n))
+        elif op == 'else-unnest':
+            lst, k = _block_of(fn, n)
+            if lst is None:
+                return False
+            tail = n.orelse
+            n.orelse = []
+            lst[k + 1:k + 1] = tail
+        elif op == 'else-nest':
+            lst, k = _block_of(fn, n)
+            if lst is None:
+                return False
+            n.orelse = lst[k + 1:]
+            del lst[k + 1:]
+        elif op == 'len-truth':
+            kind, x = _len_test(n.test)
+            n.test = ast.UnaryOp(op=ast.Not(), operand=x) if kind == 'empty' else x
+        elif op == 'swap-adjacent':
+            lst, k = _block_of(fn, n)
+            lst[k], lst[k + 1] = lst[k + 1], lst[k]
         elif op == 'slice0':
             n.slice.lower = None if n.slice.lower is not None else ast.Constant(value=0)
         elif op == 'range0':
